@@ -51,11 +51,9 @@ Definition doc_row_ok (e : env) (row : str * dval) : bool :=
   | _, _ => false
   end.
 
-(* the one documented default that is wrong today: runner.HELP says --send-bytes defaults to 18000 *)
+(* regression witness: until /repo fix fd812c0 runner.HELP said `--send-bytes ... Default is 18000` *)
 Definition s_send_bytes : str := [115;101;110;100;95;98;121;116;101;115].
-Definition help_send_bytes_row : str * dval := (s_send_bytes, DStr [49;56;48;48;48]).
-Definition row_eqb (a b : str * dval) : bool :=
-  beqb (fst a) (fst b) && match snd a, snd b with DStr x, DStr y => beqb x y | _, _ => false end.
+Definition old_help_send_bytes_row : str * dval := (s_send_bytes, DStr [49;56;48;48;48]).
 
 Definition envs : list env :=
   [ {| has_ipv6 := true; has_af_unix := true |}; {| has_ipv6 := true; has_af_unix := false |};
@@ -65,36 +63,42 @@ Proof. intros [[|] [|]]; cbn; auto. Qed.
 
 Lemma docs_defaults_bool :
   forallb (fun e => forallb (doc_row_ok e) docs_defaults && forallb (doc_row_ok e) runner_rst_defaults
-                    && forallb (fun r => row_eqb r help_send_bytes_row || doc_row_ok e r) help_defaults
-                    && negb (doc_row_ok e help_send_bytes_row)) envs = true.
+                    && forallb (doc_row_ok e) help_defaults) envs = true.
 Proof. vm_compute. reflexivity. Qed.
 
-Lemma row_eqb_eq : forall r, row_eqb r help_send_bytes_row = true -> r = help_send_bytes_row.
-Proof.
-  intros [n d] H. unfold row_eqb in H. cbn [fst snd help_send_bytes_row] in H.
-  apply andb_true_iff in H as [H1 H2]. apply beqb_eq in H1. subst n.
-  destruct d; try discriminate. apply beqb_eq in H2. subst. reflexivity.
-Qed.
-
+(* every stated default of all three documents, no exception *)
 Theorem docs_defaults_ok : forall e,
   (forall r, In r docs_defaults -> doc_row_ok e r = true)
   /\ (forall r, In r runner_rst_defaults -> doc_row_ok e r = true)
-  /\ (forall r, In r help_defaults -> r <> help_send_bytes_row -> doc_row_ok e r = true).
+  /\ (forall r, In r help_defaults -> doc_row_ok e r = true).
 Proof.
   intro e. pose proof (proj1 (forallb_forall _ _) docs_defaults_bool e (envs_all e)) as K. cbv beta in K.
-  apply andb_true_iff in K as [K _]. apply andb_true_iff in K as [K K3]. apply andb_true_iff in K as [K1 K2].
-  repeat split.
-  - intros r H. exact (proj1 (forallb_forall _ _) K1 r H).
-  - intros r H. exact (proj1 (forallb_forall _ _) K2 r H).
-  - intros r H N. pose proof (proj1 (forallb_forall _ _) K3 r H) as Q. cbv beta in Q.
-    apply orb_true_iff in Q as [Q|Q]; [|exact Q]. apply row_eqb_eq in Q. contradiction.
+  apply andb_true_iff in K as [K K3]. apply andb_true_iff in K as [K1 K2].
+  repeat split; intros r H.
+  - exact (proj1 (forallb_forall _ _) K1 r H).
+  - exact (proj1 (forallb_forall _ _) K2 r H).
+  - exact (proj1 (forallb_forall _ _) K3 r H).
 Qed.
 
-(* 18000 is not the default of send_bytes (it is 1), on any platform *)
-Theorem help_send_bytes_refuted : forall e, doc_row_ok e help_send_bytes_row = false.
+(* 18000 is not the default of send_bytes (it is 1), on any platform: a document that says so
+   again makes docs_defaults_ok false *)
+Lemma old_help_send_bytes_bool : forallb (fun e => negb (doc_row_ok e old_help_send_bytes_row)) envs = true.
+Proof. vm_compute. reflexivity. Qed.
+
+Theorem old_help_send_bytes_refuted : forall e, doc_row_ok e old_help_send_bytes_row = false.
 Proof.
-  intro e. pose proof (proj1 (forallb_forall _ _) docs_defaults_bool e (envs_all e)) as K. cbv beta in K.
-  apply andb_true_iff in K as [_ K]. apply negb_true_iff in K. exact K.
+  intro e. pose proof (proj1 (forallb_forall _ _) old_help_send_bytes_bool e (envs_all e)) as K. cbv beta in K.
+  apply negb_true_iff in K. exact K.
+Qed.
+
+(* hence the old row is in none of the three tables *)
+Theorem old_help_send_bytes_absent :
+  ~ In old_help_send_bytes_row docs_defaults /\ ~ In old_help_send_bytes_row runner_rst_defaults
+  /\ ~ In old_help_send_bytes_row help_defaults.
+Proof.
+  pose (e := {| has_ipv6 := true; has_af_unix := true |}).
+  destruct (docs_defaults_ok e) as [H1 [H2 H3]]. pose proof (old_help_send_bytes_refuted e) as R.
+  repeat split; intro H; [apply H1 in H|apply H2 in H|apply H3 in H]; rewrite R in H; discriminate.
 Qed.
 
 (* how many rows the three documents give (so that the statements above are not vacuous) *)
